@@ -284,7 +284,11 @@ def run(ck):
         reqs.append(((toks, "export"), "export " + toks, canon(ex)))
         reqs.append(((toks, "validate"), "validate " + toks, "ok" if va[0] == "ok" else ("E:overlap" if va[0] == "E:spsdk" else va[0])))
         # ---- oracle
-        geo = geometry_error(img)
+        gr = pyres(geometry_error, img)
+        if gr[0] != "ok":
+            s.expect(False, toks, "len() raised on a constructed tree", gr)
+            continue
+        geo = gr[1]
         s.expect((va[0] != "ok") == geo, toks, "validate() does not report an error exactly when a child sticks out or two siblings overlap", va, geo)
         s.expect(va[0] in ("ok", "E:spsdk"), toks, "validate() raised a non-SPSDK exception", va)
         if va[0] == "ok":
@@ -312,7 +316,7 @@ def run(ck):
             s.expect(ok_fill, toks, "own binary bytes are not at offset 0 where no sub-image covers them")
             if img.sub_images or not (own and len(own) == ln[1]):
                 blk = img.pattern.get_block(ln[1]) if img.pattern else bytes(ln[1])
-                bad = [k for k in range(len(own), len(data)) if not covered[k] and data[k] != blk[k]]
+                bad = [k for k in range(len(own), min(len(data), len(blk))) if not covered[k] and data[k] != blk[k]]  # (a length mismatch is reported above)
                 # padding appended by the final align_block restarts the pattern; only positions inside len() before alignment are checked
                 s.expect(not bad or img.alignment != 1, toks, "uncovered bytes do not hold the fill pattern", bad[:4])
             # alignment only ever extends the end
@@ -344,7 +348,9 @@ def run(ck):
         q = BinaryImage("q", binary=bytes(rng.randrange(0, 9)), alignment=rng.choice([1, 4]))
         before = len(q)
         q.append_image(BinaryImage("x", binary=b"\x11\x22\x33"))
-        so.expect(q.sub_images[-1].offset == before and q.export()[before:before + 3] == b"\x11\x22\x33", offs, "append_image does not place the image at the previous end")
+        qe = pyres(q.export)
+        so.expect(q.sub_images[-1].offset == before and qe[0] == "ok" and qe[1][before:before + 3] == b"\x11\x22\x33", offs,
+                  "append_image does not place the image at the previous end", qe if qe[0] != "ok" else None)
     if drv is not None:
         for (inp, line, real), ans in zip(reqs, drv.batch([r[1] for r in reqs])):
             so.compare(inp, real, ans)
@@ -393,15 +399,23 @@ def run(ck):
                 continue
             ld = pyres(BinaryImage.load_binary_image, path)
             # known finding: a BIN file whose whole content is printable ASCII is sniffed as a (malformed) text format
-            texty = fmt == "BIN" and all(c < 128 for c in root.export())
+            rexp = pyres(root.export)
+            if rexp[0] != "ok":
+                sf.expect(False, (base, [(o, hexs(d)) for o, d in segs], fmt), "export() raised on a root with disjoint binary children", rexp)
+                continue
+            texty = fmt == "BIN" and all(c < 128 for c in rexp[1])
             if ld[0] != "ok":
                 sf.expect(False, (base, [(o, hexs(d)) for o, d in segs], fmt), "load_binary_image raised on a file SPSDK wrote", ld,
                           finding="C16-bin-content-looks-like-text" if texty else None)
                 continue
             img2 = ld[1]
-            data2 = img2.export()
+            d2 = pyres(img2.export)
+            if d2[0] != "ok":
+                sf.expect(False, (base, [(o, hexs(d)) for o, d in segs], fmt), "export() of the loaded image raised", d2)
+                continue
+            data2 = d2[1]
             if fmt == "BIN":
-                sf.expect(data2 == root.export(), (base, segs, fmt), "BIN round trip changed the bytes",
+                sf.expect(data2 == rexp[1], (base, segs, fmt), "BIN round trip changed the bytes",
                           finding="C16-bin-content-looks-like-text" if texty else None)
             else:
                 start = img2.absolute_address
@@ -452,11 +466,19 @@ def run(ck):
         if pyres(img.validate)[0] != "ok" or len(img) == 0:
             continue
         img.offset = rng.choice([0, 0x10, 0xFFF8, 0x10000, 0x20001000, 0x0800_0000, rng.getrandbits(31)])
-        rngs = stored_range(img, 0)
+        rr = pyres(stored_range, img, 0)
+        if rr[0] != "ok":
+            st.expect(False, " ".join(tokens(img)), "len() raised on a tree validate() accepts", rr)
+            continue
+        rngs = rr[1]
         if rngs is None:
             continue
         done += 1
-        full = img.export()
+        fe = pyres(img.export)
+        if fe[0] != "ok":
+            st.expect(False, " ".join(tokens(img)), "a tree validate() accepts does not export", fe)
+            continue
+        full = fe[1]
         for fmt in ("BIN", "HEX", "S19"):
             path = os.path.join(scratch, f"tree_{done}.{fmt.lower()}")
             toks = " ".join(tokens(img)) + " " + fmt
@@ -471,7 +493,11 @@ def run(ck):
             if ld[0] != "ok":
                 st.expect(False, toks, "load_binary_image raised on a file SPSDK wrote", ld, finding="C16-bin-content-looks-like-text" if texty else None)
                 continue
-            data2 = ld[1].export()
+            d2 = pyres(ld[1].export)
+            if d2[0] != "ok":
+                st.expect(False, toks, "export() of the loaded image raised", d2)
+                continue
+            data2 = d2[1]
             if fmt == "BIN":
                 st.expect(data2 == full, toks, "BIN round trip changed the bytes", finding="C16-bin-content-looks-like-text" if texty else None)
             else:
@@ -594,8 +620,9 @@ def config_path(ck, drv, scratch):
                 yaml.safe_dump(cfg, f)
             r = CliRunner().invoke(nxpimage.main, ["utils", "binary-image", "merge", "-c", cpath, "-o", opath], catch_exceptions=True)
             out = open(opath, "rb").read() if os.path.exists(opath) else None
-            sc.expect(r.exit_code == 0 and out == ref.export(), cfg, "`nxpimage utils binary-image merge` does not write the image the configuration describes",
-                      (r.exit_code, None if out is None else hexs(out[:96])), hexs(ref.export()[:96]))
+            rexp = pyres(ref.export)
+            sc.expect(r.exit_code == 0 and rexp[0] == "ok" and out == rexp[1], cfg, "`nxpimage utils binary-image merge` does not write the image the configuration describes",
+                      (r.exit_code, None if out is None else hexs(out[:96])), hexs(rexp[1][:96]) if rexp[0] == "ok" else rexp)
             for q in (cpath, opath):
                 if os.path.exists(q):
                     os.unlink(q)
